@@ -82,6 +82,9 @@ def run(ctx):
         a, o, t = gen_valid(ctx.rng, ctx.quick, prefix_p=0.2, empty_p=0.04)
         if ctx.rng.random() < 0.12:
             a, o, t = gen_valid_signed_sum(ctx.rng)     # explicit signs against thresholds of either sign, leaves around zero
+        elif ctx.rng.random() < 0.06:
+            a, o, t = gen_valid_huge(ctx.rng)           # a threshold over a quantity far beyond 16 bits
+            ctx.tags["huge-threshold-stream"] += 1
         for _ in range(4):
             # values may lie outside a leaf's declared bounds: the interpretation wins (variable.evaluate's documented behaviour)
             # (a sub-proposition id may be named with the non-fixing range (0, 1): it is then computed from its children)
